@@ -272,6 +272,11 @@ def observable(line, out):
             return " ".join(out.split(" ")[:3])
         if out in ERRS:
             return "err"
+    if op == "rna":
+        # C19 speaks about calls that RETURN, and leaves open which of several arcs tied at the maximum score goes: whether
+        # the call returns is compared with the model; what a returning call did (an existing arc of maximum score, nothing
+        # else changed, both views in step) is judged by the direct sweep with its own reference scorer
+        return "ok" if out.startswith("ok") else "err"
     return out
 
 
